@@ -4,54 +4,62 @@
   c.<struct>.<field path>      = byte offset
   c.<struct>.<field path>.bit  = bit offset inside the byte-aligned storage unit (bitfields)
   c.sizeof.<struct>            = size
+The IPv6 build (-DIPVER6) is reported with the prefix c6 instead of c.
 Anonymous struct/union levels do not appear in the field path."""
 import json, os, re, subprocess, sys, tempfile
 
 REPO = os.environ.get("VERIF_REPO", "/repo")
-STRUCTS = ["cali_tc_state", "calico_ct_key", "calico_ct_value", "calico_nat_key", "calico_nat_value", "calico_nat_dest", "calico_ct_leg", "ip_set_key"]
+STRUCTS = ["cali_tc_state", "calico_ct_key", "calico_ct_value", "calico_nat_key", "calico_nat_value", "calico_nat_dest", "calico_nat_secondary_key", "calico_nat_affinity_key", "calico_ct_leg", "ip_set_key"]
 probe = '#include "types.h"\n#include "conntrack_types.h"\n#include "nat_types.h"\n#include "policy.h"\n'
 for i, s in enumerate(STRUCTS):
     probe += "int sz%d = sizeof(struct %s);\n" % (i, s)
-with tempfile.TemporaryDirectory() as d:
-    pc = os.path.join(d, "probe.c")
-    open(pc, "w").write(probe)
-    cmd = ["clang", "-target", "bpf", "-D__x86_64__", "-D__TARGET_ARCH_x86", "-DCALI_COMPILE_FLAGS=0", "-I", "/verif/cstub",
-           "-I", os.path.join(REPO, "felix/bpf-gpl"), "-I", "/usr/include/x86_64-linux-gnu", "-fsyntax-only", "-Xclang", "-fdump-record-layouts", pc]
-    r = subprocess.run(cmd, capture_output=True, text=True)
-    if r.returncode != 0:
-        sys.stderr.write(r.stderr[-3000:])
-        sys.exit(3)
-out = {}
-cur = None
-stack = []  # (indent, name or None)
-for line in r.stdout.splitlines():
-    m = re.match(r"\s*([0-9]+)(?::([0-9]+)-([0-9]+))? \| (\s*)(.*)$", line)
-    if not m:
-        m2 = re.match(r"\s*\| \[sizeof=(\d+)", line)
-        if m2 and cur:
-            out["c.sizeof." + cur] = int(m2.group(1))
-            cur = None
-        continue
-    off, bit_lo, indent, decl = int(m.group(1)), m.group(2), len(m.group(4)), m.group(5).strip()
-    if indent == 0:
-        mm = re.match(r"struct (\w+)$", decl)
-        cur = mm.group(1) if mm and mm.group(1) in STRUCTS and ("c.sizeof." + mm.group(1)) not in out else None
-        stack = []
-        continue
-    if cur is None:
-        continue
-    while stack and stack[-1][0] >= indent:
-        stack.pop()
-    if "(anonymous at" in decl or "(unnamed at" in decl:
-        stack.append((indent, None))
-        continue
-    name = decl.split()[-1]
-    name = re.sub(r"\[.*$", "", name)
-    path = [n for _, n in stack if n] + [name]
-    key = "c.%s.%s" % (cur, ".".join(path))
-    if key not in out:
-        out[key] = off
-        if bit_lo is not None:
-            out[key + ".bit"] = int(bit_lo)
-    stack.append((indent, name))
-json.dump(out, sys.stdout, indent=0, sort_keys=True)
+
+def layout(prefix, defines):
+    with tempfile.TemporaryDirectory() as d:
+        pc = os.path.join(d, "probe.c")
+        open(pc, "w").write(probe)
+        cmd = ["clang", "-target", "bpf", "-D__x86_64__", "-D__TARGET_ARCH_x86", "-DCALI_COMPILE_FLAGS=0"] + defines + ["-I", "/verif/cstub",
+               "-I", os.path.join(REPO, "felix/bpf-gpl"), "-I", "/usr/include/x86_64-linux-gnu", "-fsyntax-only", "-Xclang", "-fdump-record-layouts", pc]
+        r = subprocess.run(cmd, capture_output=True, text=True)
+        if r.returncode != 0:
+            sys.stderr.write(r.stderr[-3000:])
+            sys.exit(3)
+    out = {}
+    cur = None
+    stack = []  # (indent, name or None)
+    for line in r.stdout.splitlines():
+        m = re.match(r"\s*([0-9]+)(?::([0-9]+)-([0-9]+))? \| (\s*)(.*)$", line)
+        if not m:
+            m2 = re.match(r"\s*\| \[sizeof=(\d+)", line)
+            if m2 and cur:
+                out[prefix + ".sizeof." + cur] = int(m2.group(1))
+                cur = None
+            continue
+        off, bit_lo, indent, decl = int(m.group(1)), m.group(2), len(m.group(4)), m.group(5).strip()
+        if indent == 0:
+            mm = re.match(r"struct (\w+)$", decl)
+            cur = mm.group(1) if mm and mm.group(1) in STRUCTS and (prefix + ".sizeof." + mm.group(1)) not in out else None
+            stack = []
+            continue
+        if cur is None:
+            continue
+        while stack and stack[-1][0] >= indent:
+            stack.pop()
+        if "(anonymous at" in decl or "(unnamed at" in decl:
+            stack.append((indent, None))
+            continue
+        name = decl.split()[-1]
+        name = re.sub(r"\[.*$", "", name)
+        path = [n for _, n in stack if n] + [name]
+        key = "%s.%s.%s" % (prefix, cur, ".".join(path))
+        if key not in out:
+            out[key] = off
+            if bit_lo is not None:
+                out[key + ".bit"] = int(bit_lo)
+        stack.append((indent, name))
+    return out
+
+
+res = layout("c", [])            # IPv4 build
+res.update(layout("c6", ["-DIPVER6"]))  # IPv6 build
+json.dump(res, sys.stdout, indent=0, sort_keys=True)
